@@ -68,6 +68,10 @@ def spell_float(x, rng, noncanon):
             z = len(str(abs(iv))) - len(str(abs(iv)).rstrip("0"))
             return "%de%d" % (iv // 10 ** z, z)
         return "%d.00" % iv
+    if noncanon and rng.random() < 0.25 and abs(x) < 1000:
+        t = "%.*f" % (rng.choice([18, 19, 20, 22]), x)          # plain notation with many decimals (e.g. '%.20f' output)
+        if float(t) == x:
+            return t
     return repr(float(x))
 
 
@@ -334,6 +338,7 @@ class Wig(BedGraph):
 
 VCF_INFO_DEFS = [
     ("DP", "1", "Integer"), ("AF", "A", "Float"), ("DB", "0", "Flag"), ("AA", "1", "String"), ("NS", "1", "Integer"), ("MQ", "1", "Float"), ("AC", ".", "Integer"),
+    ("DBID", "1", "String"), ("H2", "0", "Flag"), ("H2X", "1", "Integer"),
 ]
 
 
@@ -408,7 +413,13 @@ class Vcf(Format):
                 else:
                     gts.append("%d%s%d" % (a, sep, b))
             v["genotypes"] = gts
-            texts += ["GT"] + gts
+            if style.get("rich_format") and rng.random() < 0.5:
+                # records may use different FORMATs; sample fields then carry more sub-fields after the genotype
+                fmt_keys = "GT:AD:DP:GQ:PL"
+                samples = ["%s:%d,%d:%d:%d:%s" % (g, rng.randint(0, 99), rng.randint(0, 99), rng.randint(0, 500), rng.randint(0, 99), ",".join(str(rng.randint(0, 9999)) for _ in range(3))) for g in gts]
+                texts += [fmt_keys] + samples
+            else:
+                texts += ["GT"] + gts
         return {"values": v, "texts": texts}
 
     def expected(self, records):
